@@ -123,6 +123,9 @@ func runHistory(c HCase) *ev.Failure {
 					return ev.Failf("history:unresolvable-command-wrong-handler", "%s: the dictionary defines command %d neither for application %d nor in the base application, yet the handler registered at step %d (%+v) was called (index handler: %v #%d, catch-all #%d)",
 						desc, msg.Code, msg.App, got, describe(c.Ops[got].Reg), hasIdx, idxWant, model.all)
 				}
+			} else if model.all >= 0 {
+				// a catch-all is registered: "failing that, the catch-all" - something must have run
+				return ev.Failf("history:catch-all-skipped", "%s: the dictionary cannot name command %d for application %d, a catch-all is registered (step %d), yet no handler ran (%d error reports offered instead)", desc, msg.Code, msg.App, model.all, reports)
 			} else if model.all < 0 && !hasIdx && reports != 1 {
 				return ev.Failf("history:missing-error-report", "%s: nothing applies and no handler ran, but %d error reports were offered", desc, reports)
 			}
